@@ -3,6 +3,7 @@ EXTENDS Bandtss
 CONSTANTS MaxH, StartWithGroup, Bal0
 
 Init ==
+    /\ par \in [period : PeriodSet, create : CreateSet]
     /\ h = 2 /\ now = 10
     /\ fee \in FeeSet
     /\ IF StartWithGroup
@@ -25,12 +26,20 @@ Init ==
 NextFees ==
     \/ \E ms \in MemberMenu, off \in ExecOffsets : Propose("authority", ms, 1, off)
     \/ \E g \in Groups : DkgDone(g, TRUE)
-    \/ \E p \in Payer \cup {"authority"}, limit \in LimitSet, incOK \in BOOLEAN :
-          \E S \in ComOrNone(current), SI \in ComOrNone(Incoming) : Request(p, limit, S, incOK, SI)
+    \/ \E p \in Payer \cup {"authority"}, limit \in LimitSet, lx \in {0, 1}, incOK \in BOOLEAN :
+          \E S \in ComOrNone(current), SI \in ComOrNone(Incoming) : Request(p, limit, lx, S, incOK, SI)
+    \/ \E id \in Sigs : SignAll(id)
+    \/ \E dt \in DtSet : \E HS \in ComOrNone(current) : EndBlock(dt, HS)
+
+\* hand-over facet: two proposals in a row, a long signing period (the first hand-over signing outlives its dropped
+\* transition and may complete while the second transition waits for ITS signature)
+NextStale ==
+    \/ \E ms \in MemberMenu, off \in ExecOffsets : Propose("authority", ms, 1, off)
+    \/ \E g \in Groups : DkgDone(g, TRUE)
     \/ \E id \in Sigs : SignAll(id)
     \/ \E dt \in DtSet : \E HS \in ComOrNone(current) : EndBlock(dt, HS)
 
 Bound == h <= MaxH /\ bsigc < MaxSig
-View == <<h, now, fee, current, tr, gcount, grp, pendG, lastExpG, bm, canSign, sigc, sig, bsigc, bsig, bal, escrow, earned, owed>>
+View == <<par, h, now, fee, current, tr, gcount, grp, pendG, lastExpG, bm, canSign, sigc, sig, bsigc, bsig, bal, escrow, earned, owed>>
 Inv == MembersInv /\ TransitionInv /\ EscrowInv
 =============================================================================
